@@ -94,7 +94,8 @@ def gen_frac(rng, n, tier):
         d = rng.choice(sp) if rng.random() < 0.4 else rng.randrange(NDAYS)
         s = d * 86400 + rng.choice([0, 86399, rng.randrange(86400)])
         ms = rng.choice([0, 1, 999, 500, 250, rng.randrange(1000)])
-        cases.append({'x': float(s) + ms / 1000.0, 's': s, 'ms': ms})
+        sub = rng.choice([0, 0, 0, 0.0004, 0.0006, 0.00096, 0.00049])          # content below the millisecond (interpolated instants, offsets such as 0.9996 s)
+        cases.append({'x': float(s) + ms / 1000.0 + sub, 's': s, 'ms': ms})
     return cases
 
 
